@@ -341,6 +341,30 @@ func (a *TCPAllocation) AcceptTCP() (transport.TCPConn, error) {
 
 // AcceptTCPWithConn accepts the next incoming call and returns the new connection.
 func (a *TCPAllocation) AcceptTCPWithConn(conn net.Conn) (*TCPConn, error) {
+	// A closed allocation fails every Accept, and a deadline that has passed
+	// fails every Accept until it is moved: neither may lose against a
+	// queued connection attempt in the select below.
+	select {
+	case <-a.closeCh:
+		return nil, &net.OpError{
+			Op:   "accept",
+			Net:  a.Addr().Network(),
+			Addr: a.Addr(),
+			Err:  net.ErrClosed,
+		}
+	default:
+	}
+	select {
+	case <-a.acceptDeadline.Done():
+		return nil, &net.OpError{
+			Op:   "accept",
+			Net:  a.Addr().Network(),
+			Addr: a.Addr(),
+			Err:  newTimeoutError("i/o timeout"),
+		}
+	default:
+	}
+
 	select {
 	case attempt := <-a.connAttemptCh:
 
